@@ -1,7 +1,10 @@
 # X02 - subscriber service: write fan-out to subscriptions (specification growth, no line in properties.jsonl).
 # spec: specs/subscriber (Subscriber, SubscriberGen); harness: harness/subscriber
-import json, re, threading
+import json, os, re, threading
 from vcheck import Infra, log
+
+# many small JVMs run side by side: keep their GC thread pools small (the machine is shared)
+os.environ.setdefault("JAVA_TOOL_OPTIONS", "-XX:ParallelGCThreads=3")
 
 PKG = "services/subscriber"
 FILES = ["subscriber/zz_verif_subscriber_test.go"]
@@ -15,7 +18,7 @@ INV = ["TypeOK", "X02a_OwnRPOnly", "X02a_OfferedOnce", "X02b_All", "X02b_Any", "
 
 
 def consts(**kw):
-    c = {"RPs": ['"r1"', '"r2"'], "SubNames": ['"a"'], "DefIds": [1, 2], "BufSize": 1, "W": 1, "MaxBatches": 2,
+    c = {"RPs": ['"r1"', '"r2"'], "SubNames": ['"a"'], "DefIds": [1, 2], "Bufs": [1], "Ws": [1], "MaxBatches": 2,
          "MaxChanges": 1, "MaxInc": 2, "Dev": [], "ServerOrder": True}
     c.update(kw)
     return c
@@ -41,17 +44,20 @@ def parallel(jobs):
 
 def exhaustive(ctx, sd):
     q = ctx.quick()
+    one = dict(RPs=['"r1"'], SubNames=['"a"'])
     cfgs = {
         # fan-out, buffers, destinations ok/fail/slow, Close; every initial metadata over two keys on different (D,R)
         "MCfan": consts(MaxBatches=3, MaxChanges=0, MaxInc=1, DefIds=[1, 2] if q else [1, 2, 4]),
         # two writer goroutines per subscription (shared balancewriter)
-        "MCw2": consts(W=2, MaxBatches=2 if q else 3, MaxChanges=0, MaxInc=1),
+        "MCw2": consts(Ws=[2], MaxBatches=2, MaxChanges=0, MaxInc=1, DefIds=[1, 2]) if not q else
+                consts(Ws=[2], MaxBatches=3, MaxChanges=0, MaxInc=1, DefIds=[1, 2], **one),
         # two subscriptions on the same (D,R), buffer 2
-        "MCsame": consts(RPs=['"r1"'], SubNames=['"a"', '"b"'], BufSize=2, MaxBatches=3, MaxChanges=0, MaxInc=1, DefIds=[2, 3]),
+        "MCsame": consts(RPs=['"r1"'], SubNames=['"a"', '"b"'], Bufs=[2], MaxBatches=3, MaxChanges=0, MaxInc=1, DefIds=[2] if q else [2, 3]),
         # metadata changes against waiter / run loop / batches (create, drop, redefine, creation failure)
-        "MCmeta": consts(MaxBatches=1, MaxChanges=2 if q else 3, MaxInc=3 if q else 4, DefIds=[1, 3] if q else [1, 3, 5]),
+        "MCmeta": consts(MaxBatches=1, MaxChanges=2, MaxInc=3, DefIds=[1, 3, 5], **one) if q else
+                  consts(MaxBatches=1, MaxChanges=3, MaxInc=4, DefIds=[1, 3, 5]),
         # Close against updates and batches in flight
-        "MCclose": consts(MaxBatches=2, MaxChanges=1, MaxInc=2, BufSize=2),
+        "MCclose": consts(MaxBatches=2, MaxChanges=1, MaxInc=2, Bufs=[2], DefIds=[2], **(one if q else {})),
     }
     jobs = []
     for name, c in cfgs.items():
@@ -62,9 +68,11 @@ def exhaustive(ctx, sd):
     neg = {
         "NEGlate": (consts(Dev=['"lateChannel"']), "X02d_Converged"),
         "NEGkeep": (consts(Dev=['"keepOldDef"'], MaxChanges=2, MaxBatches=1), "X02d_"),
-        "NEGcursor": (consts(Dev=['"sharedCursor"'], W=2, MaxChanges=0), "X02b_All"),
+        "NEGcursor": (consts(Dev=['"sharedCursor"'], Ws=[2], MaxChanges=0), "X02b_All"),
         "NEGorder": (consts(ServerOrder=False, MaxChanges=0), "X02e_NoPanic"),
     }
+    if q:
+        neg = {}        # the negative controls are statements about the model only: thorough tier
     for name, (c, _) in neg.items():
         ctx.write_cfg(sd, name + ".cfg", "Spec", c, INV, "Bounded")
         jobs.append(lambda n=name: ctx.tlc_check(sd, "Subscriber", n + ".cfg", workers=2, timeout=600, expect_ok=False, heap="4g"))
@@ -86,21 +94,19 @@ def exhaustive(ctx, sd):
 
 def generate(ctx, sd, variant):
     dev = ['"lateChannel"'] if variant == "late" else []
-    n = ctx.pick(36, 300)
+    # write-concurrency and buffer size are chosen per behaviour (Init): one JVM serves several configurations
     gens = {
-        "Ga": dict(RPs=['"r1"', '"r2"'], SubNames=['"a"'], W=1, BufSize=1),
-        "Gb": dict(RPs=['"r1"', '"r2"'], SubNames=['"a"'], W=1, BufSize=2),
-        "Gc": dict(RPs=['"r1"'], SubNames=['"a"', '"b"'], W=2, BufSize=1, DefIds=[1, 2, 4]),
+        "Gx": (ctx.pick(60, 500), dict(RPs=['"r1"', '"r2"'], SubNames=['"a"'], Ws=[1, 2], Bufs=[1, 2])),
+        "Gy": (ctx.pick(30, 300), dict(RPs=['"r1"'], SubNames=['"a"', '"b"'], Ws=[1, 2], Bufs=[1], DefIds=[1, 2, 4])),
     }
     if not ctx.quick():
-        gens["Gd"] = dict(RPs=['"r1"', '"r2"'], SubNames=['"a"', '"b"'], W=1, BufSize=1)
-        gens["Ge"] = dict(RPs=['"r1"', '"r2"'], SubNames=['"a"'], W=2, BufSize=2)
+        gens["Gz"] = (300, dict(RPs=['"r1"', '"r2"'], SubNames=['"a"', '"b"'], Ws=[1, 2], Bufs=[1, 2]))
     jobs = []
-    for name, kw in gens.items():
-        c = consts(DefIds=[1, 2, 3, 4, 5], MaxBatches=7, MaxChanges=5, MaxInc=4, Dev=dev, GenLen=ctx.pick(20, 26), MetaEvery=4)
+    for name, (n, kw) in gens.items():
+        c = consts(DefIds=[1, 2, 3, 4, 5], MaxBatches=7, MaxChanges=5, MaxInc=4, Dev=dev, GenLen=ctx.pick(18, 26), MetaEvery=4)
         c.update(kw)
         ctx.write_cfg(sd, name + ".cfg", "GSpec", c, extra="INVARIANT Emit")
-        jobs.append(lambda nm=name: ctx.tlc_generate(sd, "SubscriberGen", nm + ".cfg", num=n, depth=250, timeout=ctx.pick(900, 2400))[:n])
+        jobs.append(lambda nm=name, n=n: ctx.tlc_generate(sd, "SubscriberGen", nm + ".cfg", num=n, depth=250, timeout=ctx.pick(900, 2400))[:n])
     behs = []
     for b in parallel(jobs):
         behs += b
@@ -141,8 +147,11 @@ def run(ctx):
                 ctx.report_mismatch(sig, rep, rp)
             ctx.process(recs, out, rc if not sig else 0, STRESS, None)
         else:
-            recs, out, rc = replay({"variants": {"fixed": [rp["behaviour"]], "late": [rp["behaviour"]]}}, "replay")
-            ctx.process(recs, out, rc, REPLAY, None)
+            # a behaviour can only be followed by a tree with the waiter protocol it was generated for
+            recs, out, rc = replay({"variants": {rp["variant"]: [rp["behaviour"]]}}, "replay")
+            d = ctx.process(recs, out, rc, REPLAY, None)
+            if d.get("behaviours") == 0:
+                log("replay not applicable: the behaviour was generated for the waiter protocol '%s', this tree follows '%s'" % (rp["variant"], d.get("variant")))
         return ctx.finish("model_checking", {})
 
     # which waiter protocol does the tree under test follow?  (the repaired one fetches the changed channel
@@ -155,9 +164,18 @@ def run(ctx):
 
     # 1. exhaustive runs + negative controls, 2. generation -- all TLC runs side by side
     behs = []
-    def gen():
+    cache = os.environ.get("VERIF_X02_BEHS")     # self-test convenience (mutation runs): reuse generated behaviours,
+    def gen():                                   # skip the model-only part; never set in a regular run
+        if cache and os.path.exists("%s.%s" % (cache, variant)):
+            behs.extend(json.load(open("%s.%s" % (cache, variant))))
+            return
         behs.extend(generate(ctx, sd, variant))
-    parallel([lambda: exhaustive(ctx, sd), gen])
+        if cache:
+            json.dump(behs, open("%s.%s" % (cache, variant), "w"))
+    if os.environ.get("VERIF_X02_SKIP_MC"):
+        gen()
+    else:
+        parallel([lambda: exhaustive(ctx, sd), gen])
     log("behaviours generated: %d (variant %s)" % (len(behs), variant))
 
     # 3. replay on the real service
@@ -166,7 +184,7 @@ def run(ctx):
     ctx.cov["traces_validated_against_impl"] += done.get("held", 0)
 
     # 4. stress under the race detector
-    recs, out, rc = ctx.go_test(PKG, FILES, "^%s$" % STRESS, env={"VERIF_ROUNDS": ctx.pick(40, 400)}, timeout=1500, label="stress", race=True)
+    recs, out, rc = ctx.go_test(PKG, FILES, "^%s$" % STRESS, env={"VERIF_ROUNDS": ctx.pick(30, 400)}, timeout=1500, label="stress", race=True)
     sig, rep = race_report(out)
     if sig:
         ctx.report_mismatch(sig, rep, {"test": "race"})
